@@ -38,6 +38,18 @@ func (w *World) hostileValue(kind int, fallback []byte) []byte {
 	}
 	rec := append([]byte{}, w.file.B[off:top.fileLen]...)
 	w.ev["hostile_rootcopy"]++
+	if kind%4 == 1 {
+		// A verbatim copy is inconsistent only because it cannot be stored at the offset
+		// it records - which holds as long as the file never shrinks.  In a case that
+		// contains a FlushRevert the copy could land exactly there again, i.e. become a
+		// complete self-consistent root record: use the truncated copy instead.
+		for i := range w.c.Ops {
+			if w.c.Ops[i].K == OpRevert {
+				kind = 2
+				break
+			}
+		}
+	}
 	switch kind % 4 {
 	case 1:
 		return rec // complete copy of the last root record (relocated, hence inconsistent)
